@@ -116,7 +116,7 @@ def run_case(rng, res, idx, replaying=False):
 
 
 def plan(tier, seed):
-    n = tier_value(tier, 1600, 32000)
+    n = tier_value(tier, 1600, 120000)
     shards = tier_value(tier, 8, 14)
     per = n // shards
     return [dict(first=i * per, count=per, budget_s=tier_value(tier, 45, 420)) for i in range(shards)]
